@@ -63,9 +63,10 @@ class C08(core.Check):
         out.append({"kind": "argparse", "edd": False, "ww": True, "wrapdesc": True})
         out.append({"kind": "function", "ft": "static", "inline": True, "kwonly": True, "indent": 2, "edd": False, "ww": True, "septab": True})
         out.append({"kind": "method", "ft": "self", "inline": False, "kwonly": False, "indent": 2, "edd": False, "ww": True, "septab": True})
+        out.append({"kind": "function", "ft": "static", "inline": True, "kwonly": True, "indent": 2, "edd": True, "ww": True})
+        out.append({"kind": "method", "ft": "self", "inline": False, "kwonly": False, "indent": 2, "edd": True, "ww": True})
         if th:
             out.append({"kind": "method", "ft": "cls", "inline": True, "kwonly": True, "indent": 2, "edd": False, "ww": True})
-            out.append({"kind": "function", "ft": "static", "inline": True, "kwonly": True, "indent": 2, "edd": True, "ww": True})
         return out
 
     def space(self):
@@ -85,7 +86,7 @@ class C08(core.Check):
             if key not in seen:
                 seen.add(key)
                 keep.append(o)
-        return core.Concat(rt.OptSpace(al.S_A(), keep), rt.OptSpace(al.S_B((2,)), full), rt.OptSpace(al.S_D(), full),
+        return core.Concat(rt.OptSpace(al.S_A(), keep), rt.OptSpace(al.S_B((2,)), full), rt.OptSpace(al.S_D(), full), rt.OptSpace(al.S_W(), full),
                            _Cross(al.IRSpace(al.A_CHAIN, (0, 1), al.RETURNS_RED, al.KWARGS, (0,))))
 
     def run_case(self, case):
